@@ -313,7 +313,7 @@ func (c *FnCtx) lenOf(st *State, x Val) Val {
 	case kMap:
 		v := intVal(it, sx("select", c.heapGet(st, "M_size", "Int"), x.S, "0"))
 		_ = v
-		n := c.def("mlen", "Int", sx("select", sx("select", c.heapGet(st, "M_size", "Int"), x.S), "0"))
+		n := c.def("mlen", "Int", ite(eq(x.S, "0"), "0", sx("select", sx("select", c.heapGet(st, "M_size", "Int"), x.S), "0")))
 		c.assume(st, sx(">=", n, "0"))
 		return intVal(it, n)
 	}
@@ -610,6 +610,18 @@ func (c *FnCtx) rangeNext(fr *frame, st *State, t *ssa.Next) Val {
 	ki := c.mapKeyIndex(mt, kv)
 	dom := sx("select", sx("select", c.heapGet(st, dk, "Bool"), m.S), ki)
 	c.assume(st, implies(ok, and(not(eq(m.S, "0")), dom)))
+	inLoop := false
+	for _, l := range fr.loops {
+		if l.blocks[t.Block()] {
+			inLoop = true
+		}
+	}
+	if !inLoop {
+		// the only Next of this iteration (the body always leaves the loop):
+		// it yields a key exactly when the map is not empty
+		sz := sx("select", sx("select", c.heapGet(st, "M_size", "Int"), m.S), "0")
+		c.assume(st, eq(ok, and(not(eq(m.S, "0")), sx(">", sz, "0"))))
+	}
 	vs := sortOf(mt.Elem())
 	vv := fromTerm(mt.Elem(), c.def("rng_v", vs, sx("select", sx("select", c.heapGet(st, vk, vs), m.S), ki)))
 	c.assumeWellTyped(st, vv)
